@@ -30,6 +30,7 @@ CHECKS = {
  "C05": ("2-4 workers, block sizes 1-8, random/PCT/round-robin schedules, stalls, panics injected into model code and the visitor, timeouts: deadlock is detected exactly by the scheduler, termination is judged against a step budget, the evaluated set and verdicts are compared with the single-threaded run of the same workload, a worker panic must surface from join.", "5/C05", S1_NOTE, "deterministic simulation with fault injection (schedules, stalls, panics) + deadlock detection"),
  "C11": ("Eventually-properties on forests and general graphs, all strategies/threads: a reported counterexample requires a maximal never-satisfying path in the reference graph; on forests with completed exhaustive runs the converse is demanded too.", "5/C11", S1_NOTE, "deterministic simulation + reference maximal-path oracle"),
  "C12": ("Cross product of finish condition x targets x depth x timeout x threads x strategy sampled swarm-style under a virtual clock (stalls, wall-clock jumps, effectively unbounded counter models): matches() vs reference predicate, justified early stops, target/depth limits, bounded liveness after timeout expiry stated in fair scheduler steps once faults stop, no thread blocked on a lock whose owner sleeps, seed replay of the first simulation trace.", "5/C12", S1_NOTE, "deterministic simulation with virtual time + bounded-liveness oracle"),
+ "C19": ("The real on-demand checker (1-3 workers) runs under the scheduler behind the Explorer's request handlers (called through a cfg-gated facade, no HTTP): a simulated browser thread issues a seeded script of states / status / check_fingerprint requests (valid, mutated and unparsable fingerprint paths; pending and bogus states) between quiescent points while other browser threads poll status, then run-to-completion. states must list exactly the model's actions with successor states and fingerprints (ignored actions without), 404 <=> no execution; status counts must lie between the checker's counts around the call and every property path decode to a genuine witness; a requested pending state must be evaluated and its successors generated; after run-to-completion is_done and evaluated set / verdicts equal the reference. Path API (from_actions, encode, into_*, from_fingerprints, final_state) is compared with a reference walk. The HTTP server, its routing match and ui/app.js are not executed.", "5/C19", S1_NOTE, "deterministic simulation (scheduler-controlled browser and worker threads) + reference model oracle"),
  "C13": ("Single-worker BFS with every block size on generated graphs: visit depths must be non-decreasing and equal the reference shortest distance; always/sometimes witness length equals the shortest distance to a witnessing state. Weakest fit for the technique (no interleaving beyond harness vs worker): the simulator contributes seeded programs, the block-boundary knob and replay.", "5/C13", S1_NOTE, "deterministic simulation (seeded programs) + shortest-path oracle"),
  "C04": ("Seeded fault-heavy walks of generated actor systems (crashes, timers, random choices, drops, all network kinds); every reached state, a perturbed rebuild (shuffled insertion, other hasher keys, spare capacity, remove+reinsert) and its neighbours (crash flag flipped, timer/choice moved to the adjacent actor, message removed), plus container families (sets/maps side by side and nested, Vec<Timers>, VectorClock with trailing zeros, DenseNatMap) go through: equal canonical dump => equal fingerprint, different dump => different sequence of typed Hasher calls (a certain collision whatever the hash function), == <=> equal dump. The perturbation half is seeded value generation around states the simulation reached and is labelled so in the evidence.", "5/C04", S2_NOTE, "deterministic simulation (seeded fault walks) + recording-hasher identity oracle"),
  "C06": ("Real ActorModel::actions/next_state driven by seeded fault-biased walks in lockstep with an independent reference stepper; at every step the sets of effective (action, successor) pairs must be equal and every successor equal component by component (actor state, network, timers, choices, crash flags, history order).", "5/C06", S2_NOTE, "deterministic simulation (seeded fault walks) + lockstep reference model"),
